@@ -23,11 +23,11 @@ FINALS = [0x0000, 0xC001, 0xA700, 0xFE00, 0x1234, 0xB000, 0x0122]
 
 
 def domain(tier):
-    return {'alphabet': ALPHA, 'max_history': 5 if tier == 'thorough' else 4, 'finals': FINALS}
+    return {'alphabet': ALPHA, 'max_history': 6 if tier == 'thorough' else 4, 'finals': FINALS}
 
 
 def cases(tier, seed):
-    depth = 5 if tier == 'thorough' else 4
+    depth = 6 if tier == 'thorough' else 4
     hists = [h for n in range(depth + 1) for h in itertools.product(range(3), repeat=n)]
     # letter 3 = the handler's generator raises EventHandlingError at that point (only as last letter)
     hists += [h + (3,) for n in range(depth) for h in itertools.product(range(3), repeat=n)]
@@ -35,7 +35,7 @@ def cases(tier, seed):
         for h in hists:
             for ti in range(3):
                 for ml in (128, 16384):
-                    if entry != 'qr' and (ti + ml + len(h)) % 2:
+                    if entry != 'qr' and (ti + ml + len(h)) % 2 and tier != 'thorough':
                         continue    # secondary entry points: half of the grid
                     yield {'entry': entry, 'hist': list(h), 'ts': ti, 'maxlen': ml, 'query': 'query' if len(h) % 2 else 'query2'}
     for npend in range(depth + 1):
